@@ -277,73 +277,154 @@ theorem lambert_fg_universal (nr0 nr1 A z dt mu : ℝ) (hmu : 0 < mu) (hC : 0 < 
     linarith
   · simp only [lamFG]; rw [hχ]
 
-/-- the bracketing scan returns the first `z = 0 + 0.05 k` at which `F(z) < 0` fails -/
-theorem lambert_scan_exit (nr0 nr1 A dt mu : ℝ) (fuel : Nat) (z0 z : ℝ)
-    (h : lamScan nr0 nr1 A dt mu fuel z0 = some z) :
-    ¬ lamF nr0 nr1 A z dt mu < 0 ∧ (z = z0 ∨ lamF nr0 nr1 A (z - 0.05) dt mu < 0) := by
-  induction fuel generalizing z0 with
+/-- the bracketing scan returns the first `z = 0 + 0.05 k` at which `F(z) < 0` fails, together with
+the last point where it still held (`z_low`, 0.05 below) — or `z_low` unchanged (−∞) if it did not move -/
+theorem lambert_scan_exit (nr0 nr1 A dt mu : ℝ) (fuel : Nat) (lo0 lo : Option ℝ) (z0 z : ℝ)
+    (h : lamScan nr0 nr1 A dt mu fuel lo0 z0 = some (lo, z)) :
+    ¬ lamF nr0 nr1 A z dt mu < 0 ∧
+      ((lo = lo0 ∧ z = z0) ∨ ∃ l, lo = some l ∧ lamF nr0 nr1 A l dt mu < 0 ∧ z = l + 0.05) := by
+  induction fuel generalizing lo0 z0 with
   | zero => simp [lamScan] at h
   | succ n ih =>
     simp only [lamScan] at h
     split_ifs at h with hlt
-    · obtain ⟨h1, h2⟩ := ih _ h
+    · obtain ⟨h1, h2⟩ := ih _ _ h
       refine ⟨h1, Or.inr ?_⟩
-      rcases h2 with h2 | h2
-      · rw [h2]; simpa using hlt
+      rcases h2 with ⟨h2, h3⟩ | h2
+      · exact ⟨z0, h2, hlt, h3⟩
       · exact h2
-    · cases h; exact ⟨hlt, Or.inl rfl⟩
+    · simp only [Option.some.injEq, Prod.mk.injEq] at h
+      exact ⟨h.2 ▸ hlt, Or.inl ⟨h.1.symm, h.2.symm⟩⟩
 
-/-- **The Newton loop is left through `break` only on convergence**: if the loop reports
-convergence, the last correction `F(z')/F'(z')` applied was smaller than the tolerance in
-absolute value (all iterations, any starting point, any tolerance). -/
-theorem lambert_newton_exit (nr0 nr1 A dt mu tol : ℝ) (n : Nat) (z0 z : ℝ)
-    (h : lamNewton nr0 nr1 A dt mu tol n z0 = (z, true)) :
-    ∃ zp : ℝ, z = zp - lamF nr0 nr1 A zp dt mu / lamDF nr0 nr1 A zp ∧
-      |lamF nr0 nr1 A zp dt mu / lamDF nr0 nr1 A zp| < tol := by
-  induction n generalizing z0 with
+/-- one pass of the loop body: the updated bracket and the step actually taken (Newton, or bisection
+when the Newton step would leave the bracket) -/
+noncomputable def lamStep (nr0 nr1 A dt mu : ℝ) (lo hi : Option ℝ) (z : ℝ) : Option ℝ × Option ℝ × ℝ :=
+  let Fz := lamF nr0 nr1 A z dt mu
+  let lo' := if Fz < 0 then some z else lo
+  let hi' := if Fz < 0 then hi else some z
+  let newton := Fz / lamDF nr0 nr1 A z
+  (lo', hi', if lamInBracket lo' hi' (z - newton) then newton else z - lamMid lo' hi')
+
+/-- the step is the Newton correction `F/F'` or the distance to the midpoint of the current bracket -/
+theorem lamStep_cases (nr0 nr1 A dt mu : ℝ) (lo hi : Option ℝ) (z : ℝ) :
+    let s := lamStep nr0 nr1 A dt mu lo hi z
+    (s.2.2 = lamF nr0 nr1 A z dt mu / lamDF nr0 nr1 A z ∧ lamInBracket s.1 s.2.1 (z - s.2.2)) ∨
+    s.2.2 = z - lamMid s.1 s.2.1 := by
+  simp only [lamStep]
+  split_ifs with h1 h2 h2 <;> first | exact Or.inl ⟨rfl, h2⟩ | exact Or.inr rfl
+
+/-- unfolding of one iteration in terms of `lamStep` -/
+theorem lamNewton_succ (nr0 nr1 A dt mu tol : ℝ) (n : Nat) (lo hi : Option ℝ) (z : ℝ) :
+    lamNewton nr0 nr1 A dt mu tol (n + 1) lo hi z =
+      if |(lamStep nr0 nr1 A dt mu lo hi z).2.2| < tol then (z - (lamStep nr0 nr1 A dt mu lo hi z).2.2, true)
+      else lamNewton nr0 nr1 A dt mu tol n (lamStep nr0 nr1 A dt mu lo hi z).1 (lamStep nr0 nr1 A dt mu lo hi z).2.1
+        (z - (lamStep nr0 nr1 A dt mu lo hi z).2.2) := rfl
+
+/-- **The loop is left through `break` only on convergence**: if the loop reports convergence, the
+last step applied — a Newton correction `F(z')/F'(z')`, or a bisection step `z' − (z_low + z_high)/2`
+when that correction would have left the bracket (`lamStep_cases`) — was smaller than the tolerance in
+absolute value (all iteration counts, any starting point and bracket, any tolerance). -/
+theorem lambert_newton_exit (nr0 nr1 A dt mu tol : ℝ) (n : Nat) (lo hi : Option ℝ) (z0 z : ℝ)
+    (h : lamNewton nr0 nr1 A dt mu tol n lo hi z0 = (z, true)) :
+    ∃ (zp : ℝ) (lo' hi' : Option ℝ),
+      z = zp - (lamStep nr0 nr1 A dt mu lo' hi' zp).2.2 ∧ |(lamStep nr0 nr1 A dt mu lo' hi' zp).2.2| < tol := by
+  induction n generalizing lo hi z0 with
   | zero => simp [lamNewton] at h
   | succ k ih =>
-    simp only [lamNewton] at h
+    rw [lamNewton_succ] at h
     split_ifs at h with hlt
     · simp only [Prod.mk.injEq, and_true] at h
-      exact ⟨z0, h.symm, hlt⟩
-    · exact ih _ h
+      exact ⟨z0, lo, hi, h.symm, hlt⟩
+    · exact ih _ _ _ h
 
-/-- conversely, without `break` all `nmax` corrections were at least the tolerance: the code then
+/-- conversely, without `break` all `nmax` steps were at least the tolerance: the code then
 only logs "Max iteration exceeded" and continues with the last iterate -/
-theorem lambert_newton_no_break (nr0 nr1 A dt mu tol : ℝ) (n : Nat) (z0 z : ℝ)
-    (h : lamNewton nr0 nr1 A dt mu tol n z0 = (z, false)) (hn : n ≠ 0) :
-    ¬ |lamF nr0 nr1 A z0 dt mu / lamDF nr0 nr1 A z0| < tol := by
+theorem lambert_newton_no_break (nr0 nr1 A dt mu tol : ℝ) (n : Nat) (lo hi : Option ℝ) (z0 z : ℝ)
+    (h : lamNewton nr0 nr1 A dt mu tol n lo hi z0 = (z, false)) (hn : n ≠ 0) :
+    ¬ |(lamStep nr0 nr1 A dt mu lo hi z0).2.2| < tol := by
   cases n with
   | zero => exact absurd rfl hn
   | succ k =>
-    simp only [lamNewton] at h
+    rw [lamNewton_succ] at h
     split_ifs at h with hlt
     · simp at h
     · exact hlt
 
-/-- **End to end**: whenever `_lambert` (model) returns with the convergence flag set, the
-velocities are built from a `z` reached by a Newton correction below 1e-8, and they satisfy the
-f-g arrival relations. -/
-theorem lambert_returns (r0 r1 : V3) (dt mu : ℝ) (pro : Bool) (fuel : Nat) (v0 v1 : V3) (z : ℝ)
-    (h : lambert r0 r1 dt mu pro fuel = some (v0, v1, z, true)) :
+/-- the step keeps the next iterate inside the updated bracket, which is inside the old one -/
+theorem lamStep_in_bracket (nr0 nr1 A dt mu : ℝ) (l h z : ℝ) (hl : l ≤ z) (hh : z ≤ h) :
+    ∃ l' h', (lamStep nr0 nr1 A dt mu (some l) (some h) z).1 = some l' ∧
+      (lamStep nr0 nr1 A dt mu (some l) (some h) z).2.1 = some h' ∧ l ≤ l' ∧ h' ≤ h ∧
+      l' ≤ z - (lamStep nr0 nr1 A dt mu (some l) (some h) z).2.2 ∧
+      z - (lamStep nr0 nr1 A dt mu (some l) (some h) z).2.2 ≤ h' := by
+  by_cases hF : lamF nr0 nr1 A z dt mu < 0
+  · refine ⟨z, h, by simp [lamStep, hF], by simp [lamStep, hF], hl, le_rfl, ?_⟩
+    simp only [lamStep, hF, if_true]
+    split_ifs with hb
+    · exact hb
+    · simp only [lamMid]; constructor <;> linarith
+  · refine ⟨l, z, by simp [lamStep, hF], by simp [lamStep, hF], le_rfl, hh, ?_⟩
+    simp only [lamStep, hF, if_false]
+    split_ifs with hb
+    · exact hb
+    · simp only [lamMid]; constructor <;> linarith
+
+/-- **The iterates never leave the bracket found by the scan** (the point of fix 5cfb34d: inside the
+bracket `y(z) > 0`, so no square root of a negative number, no NaN): started inside a finite bracket
+`[l, h]`, the loop returns a `z` inside `[l, h]`, whatever `F`, `F'` and the tolerance are, with or
+without convergence. -/
+theorem lambert_newton_stays_in_bracket (nr0 nr1 A dt mu tol : ℝ) (n : Nat) (l h z0 z : ℝ) (b : Bool)
+    (hl : l ≤ z0) (hh : z0 ≤ h)
+    (hN : lamNewton nr0 nr1 A dt mu tol n (some l) (some h) z0 = (z, b)) :
+    l ≤ z ∧ z ≤ h := by
+  induction n generalizing l h z0 with
+  | zero =>
+    simp only [lamNewton, Prod.mk.injEq] at hN
+    rw [← hN.1]; exact ⟨hl, hh⟩
+  | succ k ih =>
+    rw [lamNewton_succ] at hN
+    obtain ⟨l', h', e1, e2, hll, hhh, hc1, hc2⟩ := lamStep_in_bracket nr0 nr1 A dt mu l h z0 hl hh
+    split_ifs at hN with hlt
+    · simp only [Prod.mk.injEq] at hN
+      rw [← hN.1]; constructor <;> linarith
+    · rw [e1, e2] at hN
+      have := ih l' h' _ hc1 hc2 hN
+      constructor <;> linarith [this.1, this.2]
+
+/-- **End to end**: whenever `_lambert` (model) returns with the convergence flag set, the velocities
+are built from a `z` reached by a last step (Newton or bisection) below 1e-8, they satisfy the f-g
+arrival relation, and — when the scan moved, i.e. for every elliptic transfer — `z` lies in the
+0.05-wide bracket `[z_low, z_low + 0.05]` with `F(z_low) < 0 ≤ F(z_low + 0.05)`. -/
+theorem lambert_returns (r0 r1 : V3) (dt mu : ℝ) (pro : Bool) (fuel : Nat) (v0 v1 : V3) (z : ℝ) (b : Bool)
+    (h : lambert r0 r1 dt mu pro fuel = some (v0, v1, z, b)) :
     let nr0 := V3.norm r0
     let nr1 := V3.norm r1
     let A := lamA nr0 nr1 (lamDtheta r0 r1 pro)
-    (∃ zp : ℝ, z = zp - lamF nr0 nr1 A zp dt mu / lamDF nr0 nr1 A zp ∧ |lamF nr0 nr1 A zp dt mu / lamDF nr0 nr1 A zp| < 1e-8) ∧
+    (b = true → ∃ (zp : ℝ) (lo' hi' : Option ℝ),
+      z = zp - (lamStep nr0 nr1 A dt mu lo' hi' zp).2.2 ∧ |(lamStep nr0 nr1 A dt mu lo' hi' zp).2.2| < 1e-8) ∧
     ((lamFG nr0 nr1 A z mu).2.1 ≠ 0 →
-      r1 = V3.add (V3.smul (lamFG nr0 nr1 A z mu).1 r0) (V3.smul (lamFG nr0 nr1 A z mu).2.1 v0)) := by
+      r1 = V3.add (V3.smul (lamFG nr0 nr1 A z mu).1 r0) (V3.smul (lamFG nr0 nr1 A z mu).2.1 v0)) ∧
+    (lamF nr0 nr1 A 0 dt mu < 0 →
+      ∃ l, lamF nr0 nr1 A l dt mu < 0 ∧ ¬ lamF nr0 nr1 A (l + 0.05) dt mu < 0 ∧ l ≤ z ∧ z ≤ l + 0.05) := by
   intro nr0 nr1 A
   simp only [lambert] at h
   split at h
   · simp at h
-  · rename_i z0 hz0
+  · rename_i lo z0 hz0
     simp only [Option.some.injEq, Prod.mk.injEq] at h
     obtain ⟨h0, h1, h2, h3⟩ := h
-    have hN : lamNewton nr0 nr1 A dt mu 1e-8 5000 z0 = (z, true) := Prod.ext h2 h3
-    refine ⟨lambert_newton_exit _ _ _ _ _ _ _ _ _ hN, fun hg => ?_⟩
-    have := (lambert_fg nr0 nr1 A z mu r0 r1 hg).1
-    rw [← h0, h2]
-    exact this
+    obtain ⟨hs1, hs2⟩ := lambert_scan_exit _ _ _ _ _ _ _ _ _ _ hz0
+    refine ⟨fun hb => ?_, fun hg => ?_, fun hneg => ?_⟩
+    · subst hb
+      exact lambert_newton_exit _ _ _ _ _ _ _ _ _ _ _ (Prod.ext h2 h3)
+    · have := (lambert_fg nr0 nr1 A z mu r0 r1 hg).1
+      rw [← h0, h2]
+      exact this
+    · rcases hs2 with ⟨_, hz⟩ | ⟨l, hl, hFl, hz⟩
+      · rw [hz] at hs1; exact absurd hneg hs1
+      · subst hl
+        refine ⟨l, hFl, hz ▸ hs1, ?_⟩
+        have hN : lamNewton nr0 nr1 A dt mu 1e-8 5000 (some l) (some z0) z0 = (z, b) := Prod.ext h2 h3
+        have := lambert_newton_stays_in_bracket _ _ _ _ _ _ _ l z0 z0 z b (by rw [hz]; norm_num) le_rfl hN
+        rw [hz] at this; exact this
 
 end BeyondVerif.C19
